@@ -30,6 +30,7 @@ CONSTANTS Tables,       \* user table names
           WalSteps,     \* TRUE: log append is three steps per record (crash points of C03)
           FlushSteps,   \* TRUE: flush is one step per page plus header (crash points of C04)
           CrashAt,      \* subset of {"idle", "wal", "flush"}: where Crash is enabled
+          NoCrashIn,    \* flushes during which Crash is not explored: subset of {"idle", "create", "rec"} (to focus a configuration)
           FixDeleteLSN, \* TRUE: a delete takes a fresh LSN (repaired code)
           FixReplayLSN, \* TRUE: replay never moves the LSN counter backwards (repaired code)
           FixReplayRoot, \* TRUE: replay of an insert that moves its table's root updates the catalog itself (repaired code)
@@ -149,7 +150,13 @@ ApplyOps(S, d, ops, i, groups) ==
 
 \* rows of table t as the engine fetches them: live cells in scan order
 Rows(S, d, t) == LET root == RootOf(S, d, t) IN IF root = 0 THEN <<>> ELSE ScanRight(S.c, d, root)
-KeysWhere(S, d, t, w) == LET rs == SelectSeq(Rows(S, d, t), LAMBDA x : w = 0 \/ x.v.b = w) IN [i \in 1..Len(rs) |-> rs[i].k]
+\* WHERE clauses of UPDATE / DELETE: w = 0 none; 0 < w < 100: a = w; w > 100: a >= w - 100.  Value 9 stands for
+\* a row whose INT column is NULL: `=` never matches it, `>=` on it is an error that fails the whole statement
+\* before any row is touched (the engine filters all rows first).
+Match(v, w) == w = 0 \/ (w < 100 /\ v = w /\ v # 9) \/ (w > 100 /\ v # 9 /\ v >= w - 100)
+WhereFails(vs, w) == w > 100 /\ \E i \in 1..Len(vs) : vs[i] = 9
+KeysWhere(S, d, t, w) == LET rs == SelectSeq(Rows(S, d, t), LAMBDA x : Match(x.v.b, w)) IN [i \in 1..Len(rs) |-> rs[i].k]
+ValsOf(S, d, t) == LET rs == Rows(S, d, t) IN [i \in 1..Len(rs) |-> rs[i].v.b]
 
 \* CREATE TABLE on cached pages (the flush follows as separate steps); result [S, err]
 RECURSIVE SchemaRows(_, _, _, _, _, _)
@@ -224,7 +231,7 @@ Flat(groups) == IF groups = <<>> THEN <<>> ELSE
                 IN F(1)
 
 \* positions (in the abstract table) of the rows a predicate "value = w" (w = 0: all) selects
-MatchPos(a, t, w) == SelectSeq([j \in 1..Len(a[t]) |-> j], LAMBDA j : w = 0 \/ a[t][j] = w)
+MatchPos(a, t, w) == SelectSeq([j \in 1..Len(a[t]) |-> j], LAMBDA j : Match(a[t][j], w))
 
 \* abstract states after each prefix of the statement's row operations (C03's prefix rule)
 InsPrefixes(a, t, rows) == [k \in 1..Len(rows) |-> [a EXCEPT ![t] = @ \o SubSeq(rows, 1, k)]]
@@ -237,11 +244,12 @@ DelPrefixes(a, t, w) == LET ps == MatchPos(a, t, w) IN
 \* Statement: evaluate the row operations on cached pages, then log them (or fail).
 \*   ops   = row operations as the engine issues them
 \*   prefs = the promise: abstract state after each prefix of them
-DoStmt(t, ops, prefs) ==
+DoStmt(t, ops, prefs, fails) ==
   /\ pc.k = "idle"
   /\ LET S0 == CurS
          exists == RootOf(S0, disk, t) # 0
-         r == IF exists THEN ApplyOps(S0, disk, ops, 1, <<>>) ELSE [S |-> S0, groups |-> <<>>, n |-> 0, err |-> "notable"]
+         r == IF exists /\ ~fails THEN ApplyOps(S0, disk, ops, 1, <<>>)
+              ELSE [S |-> S0, groups |-> <<>>, n |-> 0, err |-> IF exists THEN "where" ELSE "notable"]
      IN /\ Commit(r.S)
         /\ IF r.err = "ok"
            THEN /\ taint' = taint
@@ -261,15 +269,15 @@ DoStmt(t, ops, prefs) ==
 
 InsertStmt(t, rows) ==
   DoStmt(t, [i \in 1..Len(rows) |-> [op |-> "ins", t |-> t, key |-> 0, v |-> rows[i]]],
-         IF t \in DOMAIN abs THEN InsPrefixes(abs, t, rows) ELSE <<>>)
+         IF t \in DOMAIN abs THEN InsPrefixes(abs, t, rows) ELSE <<>>, FALSE)
 UpdateStmt(t, w, v) ==
   LET keys == KeysWhere(CurS, disk, t, w) IN
   DoStmt(t, [i \in 1..Len(keys) |-> [op |-> "upd", t |-> t, key |-> keys[i], v |-> v]],
-         IF t \in DOMAIN abs THEN UpdPrefixes(abs, t, w, v) ELSE <<>>)
+         IF t \in DOMAIN abs THEN UpdPrefixes(abs, t, w, v) ELSE <<>>, WhereFails(ValsOf(CurS, disk, t), w))
 DeleteStmt(t, w) ==
   LET keys == KeysWhere(CurS, disk, t, w) IN
   DoStmt(t, [i \in 1..Len(keys) |-> [op |-> "del", t |-> t, key |-> keys[i], v |-> 0]],
-         IF t \in DOMAIN abs THEN DelPrefixes(abs, t, w) ELSE <<>>)
+         IF t \in DOMAIN abs THEN DelPrefixes(abs, t, w) ELSE <<>>, WhereFails(ValsOf(CurS, disk, t), w))
 
 \* log append, one write call at a time
 WalStep ==
@@ -376,7 +384,7 @@ Crash(keep) ==
               /\ taint' = IF ~FixReplayRoot /\ EndsInsideRootMove(nd, pc.recs) THEN taint \cup {"rootmove-record-cut"} ELSE taint
         /\ cands' = <<abs>> \o pend
         /\ UNCHANGED scope
-     \/ /\ pc.k = "flush" /\ keep
+     \/ /\ pc.k = "flush" /\ keep /\ pc.after \notin NoCrashIn
         /\ cands' = CASE pc.after = "idle" -> <<abs>>
                       [] pc.after = "create" -> <<abs>> \o pend
                       [] pc.after = "rec" -> cands
